@@ -1,6 +1,8 @@
 //! C11 - ProbOrdMinHash2 selects per position independently of sequence order
 use crate::fw::*;
 use crate::util::*;
+#[allow(unused_imports)]
+use crate::util::splitmix64;
 use fnv::FnvHasher;
 use probminhash::probminhasher::probordminhash2::ProbOrdMinHash2;
 use proptest::prelude::*;
@@ -174,6 +176,79 @@ pub fn eval(c: &Case) -> Eval {
     }
 }
 
+/// tie hunting by sorting (public API only), l = 1 and one position: hash_set([a, b]) tells which of the two elements has the
+/// smaller race value; sorting a block of elements with that comparison makes the closest race values adjacent, and every
+/// adjacent pair must give the same signature in both orders (l = 1 signatures are permutation invariant).
+#[derive(Clone, Debug, Serialize, Deserialize)]
+pub struct HuntCase {
+    pub m: u32,
+    pub wy: bool,
+    pub base: u64,
+    pub n: u32,
+}
+
+fn hunt_h<H: Hasher + Default>(c: &HuntCase) -> Eval {
+    let mut s = ProbOrdMinHash2::<H>::new(c.m, 1);
+    let mut items: Vec<u64> = (0..c.n as u64).map(|i| splitmix64(c.base.wrapping_add(i))).collect();
+    items.sort_unstable();
+    items.dedup();
+    let mut single: HashMap<u64, u64> = HashMap::new();
+    for x in &items {
+        let v = s.hash_set(&[*x])[0];
+        single.insert(*x, v);
+    }
+    let mut first_wins = |x: u64, y: u64| -> bool { s.hash_set(&[x, y])[0] == single[&x] };
+    let n = items.len();
+    let mut buf = items.clone();
+    let mut width = 1;
+    while width < n {
+        let mut i = 0;
+        while i < n {
+            let mid = (i + width).min(n);
+            let hi = (i + 2 * width).min(n);
+            let (mut a, mut b, mut k) = (i, mid, i);
+            while a < mid && b < hi {
+                if first_wins(items[a], items[b]) {
+                    buf[k] = items[a];
+                    a += 1;
+                } else {
+                    buf[k] = items[b];
+                    b += 1;
+                }
+                k += 1;
+            }
+            while a < mid {
+                buf[k] = items[a];
+                a += 1;
+                k += 1;
+            }
+            while b < hi {
+                buf[k] = items[b];
+                b += 1;
+                k += 1;
+            }
+            i += 2 * width;
+        }
+        std::mem::swap(&mut items, &mut buf);
+        width *= 2;
+    }
+    let mut t = ProbOrdMinHash2::<H>::new(c.m, 1);
+    for w in items.windows(2) {
+        let ab = t.hash_set(&[w[0], w[1]]);
+        let ba = t.hash_set(&[w[1], w[0]]);
+        ensure!(ab == ba, "ProbOrdMinHash2 m={} l=1: the elements {} and {} (neighbours in the order of their race values at position 0, found by sorting {} elements with two-element sequences) give different signatures in the two orders", c.m, w[0], w[1], n);
+    }
+    Ok(Report::new(n >= 2).class("tie-hunt"))
+}
+
+pub fn eval_hunt(c: &HuntCase) -> Eval {
+    if c.wy {
+        hunt_h::<WyHash>(c)
+    } else {
+        hunt_h::<FnvHasher>(c)
+    }
+}
+
 pub fn run(ctx: &Ctx) {
     ctx.set_rule("proptest generates (m, l in 1..4 (thorough ..8), hasher FNV/WyHash, a sequence of length l..12 (thorough ..30) over an alphabet of 1..9 symbols so that repeats are common, a permutation, 0..2 unrelated earlier hash_set calls). \
         Oracles: (i) per position the l selected indices (guarded hook) are in range and strictly ascending and the position's value equals the dictionary value of exactly those l elements, the dictionary being built through the public API (hash_set of the l-element sequence); \
@@ -182,11 +257,18 @@ pub fn run(ctx: &Ctx) {
     super::run_fixed_tier(ctx, replay);
     let (cases, max_len, max_l) = ctx.tier.pick((400_000, 12, 4), (4_000_000, 30, 8));
     ctx.drive("selection", cases, 16, 3000, || strategy(max_len, max_l), eval);
+    let (cases, n) = ctx.tier.pick((32, 1u32 << 16), (320, 1u32 << 18));
+    ctx.drive("tie-hunt", cases, 16, 6, move || (prop::sample::select(vec![1u32, 1, 2, 4]), any::<bool>(), any::<u64>()).prop_map(move |(m, wy, base)| HuntCase { m, wy, base, n }), eval_hunt);
 }
 
 pub fn replay(ctx: &Ctx, sub: &str, case: &Value) -> Result<(), String> {
-    let c: Case = parse_case(case)?;
-    ctx.run_fixed(sub, &c, eval);
+    if sub == "tie-hunt" {
+        let c: HuntCase = parse_case(case)?;
+        ctx.run_fixed(sub, &c, eval_hunt);
+    } else {
+        let c: Case = parse_case(case)?;
+        ctx.run_fixed(sub, &c, eval);
+    }
     Ok(())
 }
 
